@@ -30,6 +30,15 @@ impl Dictionary {
     { unimplemented!() }
 }
 pub enum Primitive { Dictionary(Dictionary), Other(Ghost<int>) }
+// std operators a refactor of the merge would naturally use (obvious std semantics, TRUSTED):
+// `Dictionary: Default` (derived in primitive.rs) and `std::mem::take` = returns the old value, leaves the default behind
+impl Default for Dictionary {
+    #[verifier::external_body]
+    fn default() -> (r: Dictionary) { unimplemented!() }
+}
+pub uninterp spec fn default_of<T>() -> T;
+pub assume_specification<T: Default>[core::mem::take::<T>](dest: &mut T) -> (r: T)
+    ensures r == *old(dest), *final(dest) == default_of::<T>();
 
 pub trait Object {}
 
@@ -141,35 +150,7 @@ pub trait ObjectWrite: Sized {
             r matches Ok(p) ==> p == self.prim(old(update).refs.entries@.len());
 }
 
-// ---- L0 helper (R7): the HashMap entry-API `match` of `update`; the body is the hoisted source text with the three
-// argument expressions (key, generation stored in the vacant arm, generation stored in the replacing arm) kept
-// as parameters so that they stay under proof at the call site.  TRUSTED contract. ----
-#[verifier::external_body]
-fn hoist_entry_merge(changes: &mut HashMap<ObjNr, (Primitive, GenNr)>, key: ObjNr, primitive: Primitive, gen_vacant: GenNr, gen_replace: GenNr)
-    ensures
-        final(changes)@.dom() == old(changes)@.dom().insert(key),
-        forall|k: ObjNr| k != key && old(changes)@.dom().contains(k) ==> final(changes)@[k] == old(changes)@[k],
-        !old(changes)@.dom().contains(key) ==> final(changes)@[key] == (primitive, gen_vacant),
-        old(changes)@.dom().contains(key) ==> final(changes)@[key] == (match (old(changes)@[key].0, primitive) {
-            (Primitive::Dictionary(a), Primitive::Dictionary(b)) => (Primitive::Dictionary(dict_append(a, b)), old(changes)@[key].1),
-            _ => (primitive, gen_replace),
-        }),
-{
-    use std::collections::hash_map::Entry;
-    match changes.entry(key) {
-        Entry::Vacant(e) => {
-            e.insert((primitive, gen_vacant));
-        }
-        Entry::Occupied(mut e) => match (e.get_mut(), primitive) {
-            ((Primitive::Dictionary(ref mut dict), _), Primitive::Dictionary(new)) => {
-                dict.append(new);
-            }
-            (old, new) => {
-                *old = (new, gen_replace);
-            }
-        }
-    }
-}
+// (the HashMap entry-API `match` of `update` is no longer hoisted as a whole: see ENTRY_MATCH in unit.py, rule R8)
 
 // ---- `save`: vocabulary.  The bytes a `write!` produces are abstract (std::fmt is out of reach); what is
 // proved is WHERE they land and which number is printed. ----
